@@ -115,7 +115,7 @@ prop('C01',
 prop('C08',
      modules=['LarkVerif.Earley', 'LarkVerif.EarleyExec', 'LarkVerif.EarleyExpected', 'LarkVerif.LR0', 'LarkVerif.LR0Viable', 'LarkVerif.LR', 'LarkVerif.LRError', 'LarkVerif.LRViable', 'LarkVerif.LRComplete', 'LarkVerif.Props.C08'],
      theorems=['Props.C08.earley_viable_prefix_alive', 'Props.C08.earley_expected_backed', 'Props.C08.lalr_viable_prefix_shifts',
-               'Props.C08.earley_expected_complete', 'Props.C08.earley_expected_exact', 'Props.C08.earley_expected_needs_productive', 'Props.C08.lalr_shifted_terminal_is_legal', 'Props.C08.lalr_accepted_terminal_is_legal', 'Props.C08.lalr_accepts_are_legal', 'Props.C08.lalr_consumed_is_viable_prefix'],
+               'Props.C08.earley_expected_complete', 'Props.C08.earley_expected_exact', 'Props.C08.earley_expected_needs_productive', 'Props.C08.lalr_shifted_terminal_is_legal', 'Props.C08.lalr_accepted_terminal_is_legal', 'Props.C08.lalr_accepts_are_legal', 'Props.C08.lalr_consumed_is_viable_prefix', 'Props.C08.lalr_consumed_prefix_begins_sentence'],
      fingerprints=['lark/parsers/earley.py:Parser._parse', 'lark/parsers/earley.py:Parser.parse', 'lark/parsers/xearley.py:Parser._parse', 'lark/parsers/lalr_parser_state.py:ParserState.feed_token',
                    'lark/parsers/lalr_interactive_parser.py:InteractiveParser.accepts', 'lark/lexer.py:BasicLexer.next_token', 'lark/lexer.py:ContextualLexer.lex'],
      rule='rejected inputs of the C01 stream (random CFGs x Earley lexers; sampled sentences mutated by delete/insert/truncate/reverse, random strings): the exception class, position (offset, line, column), and the '
